@@ -2,7 +2,7 @@
 
 spec -> impl: MC_Attr.tla (TLC enumerates attribute value literals x declared type x default kind x
               written x ATTLIST layout, checks the theorems of AttrNorm.tla and emits one REPLAY case per
-              combination with the document text rendered by AttrSurface.Render) -> harness
+              combination with the document text rendered by AttrNormSurface.Render) -> harness
               `doc-attr-replay` parses every text in both views and records what the public DOM API
               (and XPath count(@*) / string(@name)) reports.
 impl -> spec: harness `doc-attr-record` (seeded random abstract documents: longer literals, wider alphabet,
